@@ -58,6 +58,20 @@ def listener_of(line):
     return None
 
 
+AUTO_BASE = 45000
+
+
+def resolved_listeners(entries):
+    """what the scripted Tor listens on for these lines; an 'auto' line at index i gets port AUTO_BASE+i"""
+    out = []
+    for i, e in enumerate(entries):
+        l = listener_of(e)
+        if l is None or l[0] == 'off':
+            continue
+        out.append(('tcp', '127.0.0.1', AUTO_BASE + i) if l[0] == 'auto' else l)
+    return out
+
+
 def flags_ok(line):
     for w in line.split()[1:]:
         if w.split('=')[0] not in KNOWN_FLAG_WORDS:
@@ -93,12 +107,6 @@ def same_target(observed, listener):
 # ----------------------------------------------------------------------------------------------
 # scripted Tor (control-spec): server side of one control connection
 # ----------------------------------------------------------------------------------------------
-
-def quote_if_needed(v):
-    if v == '' or re.search(r'[\s"\\]', v):
-        return '"' + v.replace('\\', '\\\\').replace('"', '\\"') + '"'
-    return v
-
 
 def parse_setconf_args(rest):
     """control-spec 3.1: 1*(SP keyword ["=" value]); value = String / QuotedString.
@@ -287,6 +295,11 @@ class ScriptedTor(object):
                 if self.defaults == 'with_socks':
                     d.append('SocksPort 9050')
                 out.append('250+config/defaults=\r\n' + ''.join(n + '\r\n' for n in d) + '.\r\n')
+            elif key == 'net/listeners/socks':
+                ls = resolved_listeners(self.socks or self.dunder) or [('tcp', '127.0.0.1', 9050)]
+                out.append('250-net/listeners/socks=%s\r\n' % ' '.join(
+                    '"unix:%s"' % l[1] if l[0] == 'unix' else
+                    ('"[%s]:%d"' % (l[1], l[2]) if l[0] == 'v6' else '"%s:%d"' % (l[1], l[2])) for l in ls))
             elif key in ('onions/current', 'onions/detached'):
                 out.append('250-%s=\r\n' % key)
             else:
@@ -605,7 +618,7 @@ def check_op(before, op, obs, after):
         E = []
     implicit_default = (not before['socks']) and (not before['dunder'])
     # listeners that exist before the operation
-    existing_listeners = [listener_of(e) for e in E if maybe_usable(e)]
+    existing_listeners = resolved_listeners(E)
     if implicit_default:
         existing_listeners.append(('tcp', '127.0.0.1', 9050))
 
@@ -632,8 +645,8 @@ def check_op(before, op, obs, after):
         if any(clearly_usable(e) for e in E):
             mode = 'use'
             targets = existing_listeners
-        elif E and any(maybe_usable(e) for e in E):
-            mode = 'either'
+        elif existing_listeners and not implicit_default:
+            mode = 'either'       # only IPv6 / auto lines: using one (at its real port) or adding a port are both fine
             targets = existing_listeners
         elif implicit_default:
             mode = 'implicit'
@@ -765,7 +778,7 @@ def check_op(before, op, obs, after):
                                 'observed neither a SETCONF nor a result (configured: %r, requested: %r)' % (E, req)))
             elif res_kind == 'ok' and mode in ('either', 'implicit'):
                 if not target_ok(res_val, targets):
-                    out.append(('existing_port_used', vn + ':wrong_target',
+                    out.append(('existing_port_used', vn + ':' + _target_sig(res_val, 'wrong_target'),
                                 'observed no SETCONF and an endpoint connecting to %r; expected one of Tor\'s '
                                 'listeners (configured: %r%s)' % (res_val, E, ', implicit default 9050'
                                                                   if implicit_default else '')))
@@ -1301,7 +1314,7 @@ def twin(tier, seed):
         'rule': ('Each evaluation is one history against a fresh scripted Tor (control-spec GETCONF/SETCONF/GETINFO/'
                  'CONF_CHANGED with a model of its SocksPort/__SocksPort lines) or one connect-outcome sequence. '
                  'Configuration histories: SOCKSPort lines {default (with/without __SocksPort, with/without '
-                 'config/defaults), "0", auto, IPv6, 1-3 entries of bare port / host:port / unix: with 0-3 option '
+                 'config/defaults), "0" (disabled), auto, IPv6, 1-3 entries of bare port / host:port / unix: with 0-3 option '
                  'words} x request {none, first word of an existing entry, absent, absent-but-substring-of-an-entry, '
                  'with option words} x entry point {_create_socks_endpoint, TorClientEndpoint.from_connection, '
                  'Tor.stream_via / web_agent / dns_resolve, TorConfig.socks_endpoint, TorConfig.create_socks_endpoint} '
